@@ -215,7 +215,7 @@ HIST_POOL = {'n_corpus': 60, 'n_synth': 35}
 def c13(tier):
     return runner.check_main(
         'C13', tier, histsim, 'histsim',
-        [('c13', 300, 14000), ('c13-io', 220, 8000)],
+        [('c13', 300, 6000), ('c13-io', 220, 3000)],
         'exploration',
         'seeded histories of 5..40 (thorough 60) operations {decode, decode_info, failing decode, render x4, data '
         'query, metadata query, script, double wire, encode, failing encode, subset+encode, table lookup, restart, '
@@ -230,7 +230,7 @@ def c13(tier):
 def c08(tier):
     return runner.check_main(
         'C08', tier, histsim, 'histsim',
-        [('c08', 240, 16000), ('c08-def', 300, 20000, 'defsim')],
+        [('c08', 240, 4000), ('c08-def', 300, 12000, 'defsim')],
         'exploration',
         'seeded histories biased to compiling clients (cache 0/1/2/8), always containing a pair of messages with the '
         'same descriptor list under table versions where an element differs and messages with marker operators, '
